@@ -1,6 +1,7 @@
 package main
 
 import (
+	"fmt"
 	"os"
 	"path/filepath"
 	"strings"
@@ -14,7 +15,7 @@ func e2eProp(id, dir string, bounds, outside []string) *Prop {
 		ID: id, PkgDir: "interp", PkgPath: interpPath, PkgName: "interp",
 		Harness:    []string{"interp_common.go", "E2E.go"},
 		InlinePkgs: []string{"github.com/traefik/yaegi/stdlib", "errors"},
-		InitFiles:  map[string][]string{"github.com/traefik/yaegi/stdlib": {"_errors.go", "_fmt.go", "_io.go", "_sort.go", "stdlib.go", "wrapper-composed.go"}},
+		InitFiles:  map[string][]string{"github.com/traefik/yaegi/stdlib": {"_errors.go", "_fmt.go", "_io.go", "_sort.go", "stdlib.go", "wrapper-composed.go", "maptypes.go"}},
 		Instrument: runidInstr, GenAST: true, E2EDir: dir, TestFiles: []string{"ast_dump_test.go.txt"},
 		Setup:     func(e *sym.Engine) { e.MaxDepth = 4000; e.MaxSteps = 20000000 },
 		Redirects: map[string]string{ip + "parse": "vmE2EParse", ip + "ast": "vmE2EAst", ip + "stripReceiverFromArgs": "vmStripReceiver"},
@@ -26,7 +27,9 @@ func e2eProp(id, dir string, bounds, outside []string) *Prop {
 				bound = 1 << 31 // every 32-bit input; the programs compute in 64-bit int with wrap-around
 			}
 			for k := range files {
-				r = append(r, Oblig{Harness: "vh_E2E", Unroll: 400, MaxPaths: 20000, Globals: map[string]int{"vhProgIdx": k, "vhInputBound": bound}})
+				num := 1
+				fmt.Sscanf(id, "C%d", &num)
+				r = append(r, Oblig{Harness: "vh_E2E", Unroll: 400, MaxPaths: 20000, Globals: map[string]int{"vhProgIdx": k, "vhInputBound": bound, "vhPropNum": num}})
 			}
 			return r
 		},
